@@ -42,6 +42,12 @@ var interpPkgs = map[string]bool{
 	"github.com/censync/go-validator": false,
 }
 
+// single library functions interpreted from their real SSA bodies (pure Go, call back into interpreted closures)
+var interpFns = map[string]bool{
+	"sort.Search": true, "sort.Find": true, "sort.SearchInts": true, "sort.SearchStrings": true,
+	"sort.SearchFloat64s": true, "slices.Index": true, "slices.Contains": true,
+}
+
 // foreign packages whose package initialiser is executed by the engine
 var initPkgs = map[string]bool{
 	"github.com/ferranbt/fastssz": true,
@@ -152,6 +158,12 @@ func (P *Program) interpretable(fn *ssa.Function) bool {
 	}
 	path := fnPkgPath(fn)
 	if P.isOwn(path) {
+		return true
+	}
+	if interpFns[fn.String()] {
+		return true
+	}
+	if o := fn.Origin(); o != nil && interpFns[o.String()] {
 		return true
 	}
 	return P.interp[path]
